@@ -3,7 +3,10 @@
 //   src/proto/streams/flow_control.rs  (all of it, incl. the usize comparison impls of Window)
 //   src/proto/streams/stream.rs        Stream::{capacity, assign_capacity, send_data, notify_capacity, notify_send, is_send_ready}
 //   src/proto/streams/prioritize.rs    Prioritize::{try_assign_capacity, reserve_capacity, reclaim_all_capacity,
-//                                      reclaim_reserved_capacity, recv_stream_window_update, schedule_send}
+//                                      reclaim_reserved_capacity, recv_stream_window_update, schedule_send, queue_frame,
+//                                      push_back_frame, clear_queue, reclaim_frame_inner, pop_frame, send_data,
+//                                      assign_connection_capacity, recv_connection_window_update} (inc/prioritize.inc) and the
+//                                      write driver {buffer_pending, reclaim_frame, reclaim_written_frame, pop_pending_open} (below)
 // This is MODULAR: a caller is checked against its callees' contracts, not their bodies; every callee whose
 // body is in this file is itself verified here; the others are listed as `external_body` assumptions.
 use vstd::prelude::*;
@@ -14,6 +17,209 @@ use std::mem;
 verus! {
 
 //@include prioritize.inc
+
+// ================================================================================================
+// The write driver: Prioritize::{buffer_pending, reclaim_frame, reclaim_written_frame, pop_pending_open}
+// ================================================================================================
+// C01 / C08 / C06:  buffer_pending hands EVERY frame pop_frame returns to the codec, in the order they were popped, and
+//   nothing else; it answers CodecFull only when the codec really has no room and Complete only when pop_frame found
+//   nothing sendable; the codec is never handed a frame without room (the `assert!(self.has_capacity())` of
+//   Encoder::buffer), never a DATA frame above the peer's SETTINGS_MAX_FRAME_SIZE (`.expect("invalid frame")`), and never
+//   a second frame while a finished DATA frame still waits in the codec's single `last_data_frame` slot (it would be
+//   overwritten and its unsent tail lost); the precondition of pop_frame — no DATA frame in flight — and the real
+//   `debug_assert_eq!(self.in_flight_data_frame, InFlightData::Nothing)` are discharged from I-inflight:
+//        in_flight_data_frame != Nothing   <==>   the codec holds a DATA frame (being written, or finished and not yet reclaimed)
+//   which every function here re-establishes.
+//
+// Modelled by hand (ASSUMED): the write side of `Codec` (`CodecW`): `has_send_capacity` (true only when nothing is parked:
+// Encoder::has_capacity, unit v_framed_write), `buffer` (Encoder::buffer: a small DATA frame is encoded at once and put
+// into `last_data_frame` with its payload consumed, a large one is parked as `next` and the codec has no room until it is
+// written; FramedWrite::flush / unset_frame later move it to `last_data_frame`), `take_last_data_frame`;
+// `Queue<NextOpen>::pop`, `Queue<NextSend>::push_front`; `Store::resolve` of the in-flight key.
+pub struct CodecW {
+    pub room: bool,
+    pub next_is_data: bool,
+    pub last_data: Option<frame::Data<Prioritized>>,
+    pub max_frame: usize,
+    pub sent: Ghost<Seq<Frame<Prioritized>>>,
+}
+
+impl CodecW {
+    pub open spec fn holds_data(self) -> bool { self.next_is_data || self.last_data is Some }
+
+    #[verifier::external_body]
+    pub fn has_send_capacity(&mut self) -> (r: bool)
+        ensures *final(self) == *old(self), r == old(self).room, r ==> !old(self).next_is_data,
+    { unimplemented!() }
+
+    #[verifier::external_body]
+    pub fn max_send_frame_size(&self) -> (r: usize)
+        ensures r == self.max_frame, 16_384 <= r <= 0xff_ffff,        // Settings::load / set_max_send_frame_size (unit v_framed_read, Kani settings_*)
+    { unimplemented!() }
+
+    #[verifier::external_body]
+    pub fn take_last_data_frame(&mut self) -> (r: Option<frame::Data<Prioritized>>)
+        ensures r == old(self).last_data, *final(self) == (CodecW { last_data: None, ..*old(self) }),
+    { unimplemented!() }
+
+    #[verifier::external_body]
+    pub fn buffer(&mut self, item: Frame<Prioritized>) -> (r: Result<(), UserError>)
+        requires
+            old(self).room,                   // the real assert!(self.has_capacity())
+            old(self).last_data is None,      // the single slot: a finished DATA frame must have been reclaimed first
+        ensures
+            final(self).max_frame == old(self).max_frame,
+            // refused only for a DATA payload above the peer's limit; then nothing changes
+            r is Err ==> (item matches Frame::Data(d) && d.data.limit > old(self).max_frame) && *final(self) == *old(self),
+            (item matches Frame::Data(d) && d.data.limit <= old(self).max_frame) ==> r is Ok,
+            !(item is Data) ==> r is Ok,
+            r is Ok ==> final(self).sent@ == old(self).sent@.push(item),
+            r is Ok ==> match item {
+                // encoded at once (payload consumed, the frame waits to be reclaimed) or parked (no room until written)
+                Frame::Data(d) => (!final(self).next_is_data && (final(self).last_data matches Some(l) && l.data.stream == d.data.stream
+                                        && l.stream_id == d.stream_id && l.eos == d.eos && l.data.end_of_stream == d.data.end_of_stream
+                                        && l.data.inner_rem == d.data.inner_rem - min_int(d.data.limit as int, d.data.inner_rem as int)))
+                    || (final(self).next_is_data && final(self).last_data is None && !final(self).room),
+                _ => final(self).next_is_data == old(self).next_is_data && final(self).last_data == old(self).last_data,
+            },
+    { unimplemented!() }
+}
+
+pub open spec fn min_int(a: int, b: int) -> int { if a < b { a } else { b } }
+
+/// I-inflight
+pub open spec fn i_inflight(p: Prioritize, c: CodecW) -> bool {
+    &&& (p.in_flight_data_frame != InFlightData::Nothing) == c.holds_data()
+    &&& !(c.next_is_data && c.last_data is Some)
+    &&& c.last_data matches Some(f) ==> (p.in_flight_data_frame matches InFlightData::DataFrame(k) ==> k == f.data.stream)
+}
+
+#[derive(PartialEq, Eq, Structural, Clone, Copy, Debug)]
+pub enum BufferStatus { Complete, CodecFull }
+
+impl QueueOpen {
+    /// store::Queue<NextOpen>::pop: a stream waiting for a concurrency slot is on no other send queue and is not counted yet
+    #[verifier::external_body]
+    pub fn pop(&mut self, store: &mut Store) -> (r: Option<Stream>)
+        requires old(store).sum() >= 0,
+        ensures
+            match r {
+                Some(s) => stream_inv(s) && !s.is_pending_open && !s.is_pending_send && !s.is_pending_push && !s.released()
+                    && 0 <= s.send_flow.a() <= old(store).sum() && final(store).sum() == old(store).sum() - s.send_flow.a()
+                    && final(store).held() == old(store).held() + 1,
+                None => final(store).sum() == old(store).sum() && final(store).held() == old(store).held(),
+            },
+    { unimplemented!() }
+}
+impl QueueSend {
+    #[verifier::external_body]
+    pub fn push_front(&mut self, stream: &mut Stream) -> (r: bool)
+        requires !old(stream).is_pending_open,
+        ensures *final(stream) == (Stream { is_pending_send: true, ..*old(stream) }),
+    { unimplemented!() }
+}
+impl Store {
+    /// `store.resolve(key)` for the key of the DATA frame that comes back from the codec.  In /repo the lookup happens
+    /// inside reclaim_frame_inner and only when in_flight_data_frame is DataFrame(key) (for `Drop` the stream may be
+    /// gone and is not looked up); here it is hoisted in front of the call (listed substitution) and hands out SOME
+    /// stream record in the `Drop` case, which reclaim_frame_inner is proved not to touch.  ASSUMED: the key recorded in
+    /// in_flight_data_frame is live, and a stream whose DATA reached the codec has been opened.
+    #[verifier::external_body]
+    pub fn resolve_in_flight(&mut self, key: Key) -> (s: Stream)
+        requires old(self).sum() >= 0,
+        ensures s.key == key && !s.is_pending_open && stream_inv(s),
+            0 <= s.send_flow.a() <= old(self).sum() && final(self).sum() == old(self).sum() - s.send_flow.a() && final(self).held() == old(self).held() + 1,
+    { unimplemented!() }
+}
+
+impl Prioritize {
+    // Listed substitutions: the `Ptr` return type => the owned stream.
+    //@extract src/proto/streams/prioritize.rs Prioritize::pop_pending_open
+    //@subst_re fn pop_pending_open<'s>\(\s*&mut self,\s*store: &'s mut Store,\s*counts: &mut Counts,\s*\) -> Option<store::Ptr<'s>>=>fn pop_pending_open(&mut self, store: &mut Store, counts: &mut Counts) -> Option<Stream>
+    //@ret r
+    //@spec     requires old(store).sum() >= 0,
+    //@spec     ensures
+    //@spec         final(self).flow == old(self).flow && final(self).in_flight_data_frame == old(self).in_flight_data_frame && final(self).max_buffer_size == old(self).max_buffer_size,
+    //@spec         match r {
+    //@spec             // C05: admitted => counted; it is handed out un-queued, sender woken
+    //@spec             Some(s) => stream_inv(s) && !s.is_pending_open && !s.is_pending_send && !s.is_pending_push && s.is_counted && !s.released()
+    //@spec                 && 0 <= s.send_flow.a() <= old(store).sum() && final(store).sum() == old(store).sum() - s.send_flow.a()
+    //@spec                 && final(store).held() == old(store).held() + 1,
+    //@spec             None => final(store).sum() == old(store).sum() && final(store).held() == old(store).held(),
+    //@spec         },
+    //@end
+
+    // Listed substitution: the lookup of the in-flight key hoisted in front of the call (see Store::resolve_in_flight).
+    //@extract src/proto/streams/prioritize.rs Prioritize::reclaim_frame
+    //@subst reclaim_frame<T, B>(=>reclaim_frame(
+    //@subst buffer: &mut Buffer<Frame<B>>=>buffer: &mut Buffer
+    //@subst dst: &mut Codec<T, Prioritized<B>>=>dst: &mut CodecW
+    //@subst_re \)\s*->\s*bool\s*where\s*B:\s*Buf,=>) -> bool
+    //@subst self.reclaim_frame_inner(buffer, store, frame)=>{ let mut s = store.resolve_in_flight(frame.data.stream); let ghost a0 = s.send_flow.a(); let r = self.reclaim_frame_inner(buffer, &mut s, frame); proof { assert(s.send_flow.a() == a0); } store.put_back_any(s); r }
+    //@ret r
+    //@spec     requires
+    //@spec         i_inflight(*old(self), *old(dst)),
+    //@spec         old(store).sum() >= 0,
+    //@spec     ensures
+    //@spec         i_inflight(*final(self), *final(dst)),
+    //@spec         // the finished frame was taken out of the codec's slot; nothing else about the codec changes
+    //@spec         *final(dst) == (CodecW { last_data: None, ..*old(dst) }),
+    //@spec         final(self).flow == old(self).flow,
+    //@spec         final(store).sum() == old(store).sum() && final(store).held() == old(store).held(),
+    //@spec         r ==> old(dst).last_data is Some,
+    //@end
+
+    //@extract src/proto/streams/prioritize.rs Prioritize::reclaim_written_frame
+    //@subst reclaim_written_frame<T, B>(=>reclaim_written_frame(
+    //@subst buffer: &mut Buffer<Frame<B>>=>buffer: &mut Buffer
+    //@subst dst: &mut Codec<T, Prioritized<B>>=>dst: &mut CodecW
+    //@subst_re \)\s*->\s*bool\s*where\s*B:\s*Buf,=>) -> bool
+    //@ret r
+    //@spec     requires i_inflight(*old(self), *old(dst)), old(store).sum() >= 0,
+    //@spec     ensures
+    //@spec         i_inflight(*final(self), *final(dst)), *final(dst) == (CodecW { last_data: None, ..*old(dst) }),
+    //@spec         final(self).flow == old(self).flow && final(store).sum() == old(store).sum() && final(store).held() == old(store).held(),
+    //@end
+
+    // Listed substitutions: generics dropped; the stream admitted by pop_pending_open goes back to the store where the real
+    // `Ptr` goes out of scope (`store.put_back`, which REQUIRES the stream invariant and !released()); `.expect(..)` =>
+    // assert(is_ok); `frame.payload().stream` => the field; BufferStatus results keep their text.
+    //@extract src/proto/streams/prioritize.rs Prioritize::buffer_pending
+    //@attr #[verifier::exec_allows_no_decreases_clause]
+    //@subst_re pub fn buffer_pending<T, B>\(\s*&mut self,\s*buffer: &mut Buffer<Frame<B>>,\s*store: &mut Store,\s*counts: &mut Counts,\s*dst: &mut Codec<T, Prioritized<B>>,\s*\) -> io::Result<BufferStatus>\s*where\s*T: AsyncWrite \+ Unpin,\s*B: Buf,=>pub fn buffer_pending(&mut self, buffer: &mut Buffer, store: &mut Store, counts: &mut Counts, dst: &mut CodecW) -> Result<BufferStatus, u8>
+    //@subst_re self\.try_assign_capacity\(&mut stream\);\s*\}=>self.try_assign_capacity(&mut stream); store.put_back(stream); }
+    //@subst_opt_re frame\.payload\(\)\.stream ==>> frame.data.stream
+    //@subst dst.buffer(frame).expect("invalid frame");=>let ghost sent1 = dst.sent@; let ghost fr = frame; let _b = dst.buffer(frame); assert(_b.is_ok()); proof { let n0 = old(dst).sent@.len() as int; assert(dst.sent@.take(n0) =~= sent1.take(n0)); assert(dst.sent@.skip(n0) =~= sent1.skip(n0).push(fr)); assert(sent1.skip(n0).push(fr).drop_last() =~= sent1.skip(n0)); }
+    //@before let max_frame_len = dst.max_send_frame_size();=>proof { let n0 = old(dst).sent@.len() as int; assert(dst.sent@.take(n0) =~= old(dst).sent@); assert(dst.sent@.skip(n0) =~= Seq::<Frame<Prioritized>>::empty()); }
+    //@ret r
+    //@spec     requires
+    //@spec         i_inflight(*old(self), *old(dst)),
+    //@spec         old(self).pool_inv(*old(store), 0),
+    //@spec     ensures
+    //@spec         i_inflight(*final(self), *final(dst)),
+    //@spec         final(self).pool_inv(*final(store), 0) && final(store).held() == old(store).held(),
+    //@spec         r is Ok,
+    //@spec         // back-pressure is reported only when it is real; Complete only when nothing sendable is left
+    //@spec         r == Ok::<BufferStatus, u8>(BufferStatus::CodecFull) ==> !final(dst).room,
+    //@spec         // whatever was handed to the codec is behind what it had, and only frames were appended
+    //@spec         final(dst).sent@.len() >= old(dst).sent@.len() && final(dst).sent@.take(old(dst).sent@.len() as int) == old(dst).sent@,
+    //@spec         // C02: the connection window is charged by exactly the DATA handed over
+    //@spec         final(self).flow.w() == old(self).flow.w() - data_len(final(dst).sent@.skip(old(dst).sent@.len() as int)),
+    //@loop 0     invariant
+    //@loop 0         i_inflight(*self, *dst), dst.last_data is None,
+    //@loop 0         self.pool_inv(*store, 0) && store.held() == old(store).held(),
+    //@loop 0         max_frame_len == dst.max_frame && 16_384 <= max_frame_len <= 0xff_ffff,
+    //@loop 0         dst.sent@.len() >= old(dst).sent@.len() && dst.sent@.take(old(dst).sent@.len() as int) == old(dst).sent@,
+    //@loop 0         self.flow.w() == old(self).flow.w() - data_len(dst.sent@.skip(old(dst).sent@.len() as int)),
+    //@end
+}
+
+/// octets of DATA payload in a sequence of frames handed to the codec (what the connection window was charged)
+pub open spec fn data_len(s: Seq<Frame<Prioritized>>) -> int
+    decreases s.len(),
+{
+    if s.len() == 0 { 0 } else { data_len(s.drop_last()) + (match s.last() { Frame::Data(d) => d.data.limit as int, _ => 0 }) }
+}
 
 proof fn vacuity_probe_prioritize()
     ensures false,
